@@ -53,6 +53,11 @@ CLASS_NAMES = {2: "dup_rcpt_last_result"}   # retired: 1 = single_554 (raven aea
 # --------------------------------------------------------------------------
 # scenario -> driver ops
 
+def dot_stuff(raw):
+    """what an LMTP client sends for the message text: a line starting with "." gets one more"""
+    return "".join(("." + l) if l.startswith(".") else l for l in raw.splitlines(True))
+
+
 def build_ops(hist, txns):
     ops, index = c03.driver_ops(hist)
     nh = len(ops)
@@ -77,7 +82,7 @@ def build_ops(hist, txns):
             # another connection holds shared.db's write lock while the message is stored: every
             # write to the blobs table fails after the 5 s busy timeout, reads and the per-user store work
             ops.append({"op": "db_lock"})
-        ops.append({"op": "c01_txn", "conn": "t%d" % i, "from": "a@example.com", "rcpts": t["rs"], "data": t["msg"]["raw"],
+        ops.append({"op": "c01_txn", "conn": "t%d" % i, "from": "a@example.com", "rcpts": t["rs"], "data": dot_stuff(t["msg"]["raw"]),
                     "timeout_ms": 90000 if t.get("fault") else 8000})
         pos["txn"] = len(ops) - 1
         if t.get("fault"):
@@ -308,7 +313,7 @@ class Scen:
                     if g is None or g[2] == 0 or body == "" or miss:
                         cls = None
                         self.viol.append((ti, "unfetchable", "store %r UID %d in %s: %s (part rows %s, literal of %d bytes)" % (
-                            k, l[3], mbn_final.get(l[2]), "BODY[] is empty" if body == "" else "BODY[] lacks %r" % miss[:3], g[2] if g else None, len(body)), cls))
+                            k, l[3], mbn_final.get(l[2]), "BODY[] is empty" if body == "" else "BODY[] lacks %r" % [tk if len(tk) <= 48 else "%s...(%d octets)" % (tk[:24], len(tk)) for tk in miss[:3]], g[2] if g else None, len(body)), cls))
         # STATUS tells what the dump holds
         for (k, fo), (n, nx) in self.status.items():
             s = final.get(k)
@@ -585,7 +590,7 @@ def run(chk):
     n_txn = sum(len(sc.txns) for sc in scens)
     accepted = sum(sc.accepted for sc in scens)
     # ---- 2. generated scenarios
-    n_scen, hist_len = (96, 14) if quick else (1500, 30)
+    n_scen, hist_len = (84, 14) if quick else (1500, 30)
     items = [gen_scenario(chk.rng, i, hist_len, copy_ok) for i in range(n_scen)]
     kinds, rk, combos, cfgk = {}, {}, set(), {}
     refused_rcpt = oversize = over_q = faults = fault_inline = 0
